@@ -19,6 +19,8 @@ pub fn no_child(_: &[String]) -> i32 {
 }
 
 pub mod codec;
+pub mod hnsw;
+pub mod index;
 pub mod okey;
 pub mod walframe;
 pub mod capi_sched;
@@ -41,6 +43,8 @@ pub mod agg;
 pub fn all() -> Vec<StreamDef> {
     vec![
         codec::def(),
+        hnsw::def(),
+        index::def(),
         okey::def(),
         walframe::def(),
         capi_sched::def(),
